@@ -1,6 +1,9 @@
 /- C12: discriminators: the regenerated tables equal the pinned tables as finite maps; decoder and encoder consult the
    same table with the same key; unknown keys are errors (generic theorems of DecLemmas at Gen.env). -/
-import FinProto.Obl.Pinned
+import FinProto.Obl.SMirror
+import FinProto.Obl.SPinnedTables
+import FinProto.Obl.SPinnedTypes
+import FinProto.Obl.SRefs
 import FinProto.Props.DecLemmas
 set_option linter.defProp false
 namespace FinProto.Obl
